@@ -63,3 +63,69 @@ REGISTRY["C14"] = {
            timeout=900),
     ],
 }
+
+REGISTRY["C29"] = {
+    "explanation": "The real LimitedWriter and node_to_stream (the two pieces node_to_bytes_limit composes) are run "
+                   "on symbolic trees with a symbolic limit and compared with the unlimited serializer: Ok(identical "
+                   "bytes) iff len <= limit, otherwise exactly EvalErr::OutOfMemory, wherever the crossing byte falls "
+                   "(cons marker, length prefix, atom body).",
+    "outside": "trees with more than 2 pairs, atoms longer than 4 bytes with symbolic content; the back-reference "
+               "serializer's search structure (HashMap keyed by SHA-256) is not encoded",
+    "assumptions": ["output sink is a fixed-size buffer instead of Cursor<Vec<u8>> (Vec growth is not the subject)"],
+    "obligations": [
+        ob("c29::c29_classic_single_atom", "one atom, limit crossing in prefix or body",
+           "atom 0..=4 symbolic bytes, limit 0..=6", timeout=600,
+           unwindset=[("node_to_stream", 3), ("write_all", 3), ("FixedBuf", 7), ("fits_in_small_atom", 6)]),
+        ob("c29::c29_classic_tree_2pairs", "all trees/DAGs, crossing on cons marker, prefix or body",
+           "1..=2 pairs over two symbolic atoms of 0..=2 bytes, limit 0..=12", timeout=900,
+           unwindset=[("node_to_stream", 9), ("write_all", 3), ("FixedBuf", 4), ("fits_in_small_atom", 6),
+                      ("Pool", 4), ("check_limit", 14)]),
+    ],
+}
+
+_ALLOC_STEPS = [
+    ("c12::c12_step_new_atom", "new_atom of any content", "content 0..=5 symbolic bytes"),
+    ("c12::c12_step_new_small_number", "new_small_number of any value", "all v < 2^26"),
+    ("c12::c12_step_new_pair", "new_pair of any two existing nodes", "children among heap/view/inline/pair nodes"),
+    ("c12::c12_step_add_ghost", "add_ghost_atom / add_ghost_pair of any amount", "amount 0..=125,000,000"),
+    ("c12::c12_step_new_substr", "new_substr of a heap atom, a view and an inline atom", "all u32 bounds"),
+    ("c12::c12_step_new_concat", "new_concat of 0..=3 terms of any representation, any declared size", "size 0..=32"),
+    ("c12::c12_step_checkpoints", "checkpoint / batch of 5 allocations / full or transparent restore / one more allocation", "batch of 5"),
+]
+_PRE = ("pre-state: Allocator::new_limited(any limit in 7..=2^32-1), a 6-byte symbolic heap atom, a view of it with "
+        "symbolic bounds, an inline small integer of symbolic value, a pair, add_ghost_atom/add_ghost_pair(any amount up "
+        "to the cap) - i.e. any distance from each of the three caps")
+
+REGISTRY["C12"] = {
+    "explanation": "Inductive-step formulation: one allocator operation from a symbolic pre-state built through the public "
+                   "API, counts compared with the three-counter reference model. " + _PRE,
+    "outside": "atoms longer than 6 bytes, concat of more than 3 terms, sequences longer than the stated step "
+               "(the step argument extends to histories because the pre-state ranges over all counter values)",
+    "obligations": [ob(h, w, b + "; " + "unwind 8", timeout=900) for h, w, b in _ALLOC_STEPS],
+}
+REGISTRY["C13"] = {
+    "explanation": "Same single-step harnesses as C12; the C13/ assertions state: an operation fails with the right error "
+                   "only when completing it would exceed the cap, succeeds only when it would not, counts never exceed "
+                   "caps afterwards, failed operations leave counts and existing contents unchanged. " + _PRE,
+    "outside": "run_program-level allocation near caps (covered only through the operator harnesses)",
+    "obligations": [ob(h, w, b + "; " + "unwind 8", timeout=900) for h, w, b in _ALLOC_STEPS],
+}
+
+REGISTRY["C09"] = {
+    "explanation": "op_unknown is executed on a symbolic opcode of 0..=6 bytes, an argument list of up to 3 items each of "
+                   "which is an atom of SYMBOLIC LENGTH (any u32, through the length-only hook Allocator::verif_atom_span) "
+                   "or a pair, proper or improper terminator, a symbolic budget and either cost model, and compared with "
+                   "the published rule evaluated in u128 arithmetic (no wrapping, no early exits).",
+    "outside": "argument lists longer than 3; strict-mode routing is a separate obligation",
+    "assumptions": ["atoms created by verif_atom_span have no backing bytes; op_unknown reads lengths only (a byte read "
+                    "would fail natively at replay)"],
+    "obligations": [
+        ob("c09::c09_unknown_legacy_2args", "pre-hard-fork model, <=2 args", "opcode 0..=6 bytes, args <= 2, lengths any u32, budget any u64", timeout=900),
+        ob("c09::c09_unknown_newmodel_2args", "NEW_COST_MODEL, <=2 args", "opcode 0..=6 bytes, args <= 2, lengths any u32, budget any u64", timeout=900),
+        ob("c09::c09_unknown_legacy_3args", "pre-hard-fork model, <=3 args", "opcode 0..=6 bytes, args <= 3, lengths any u32", tier="thorough", timeout=3000),
+        ob("c09::c09_unknown_newmodel_3args", "NEW_COST_MODEL, <=3 args", "opcode 0..=6 bytes, args <= 3, lengths any u32", tier="thorough", timeout=3000),
+    ],
+}
+
+REGISTRY["PROBE"] = {"obligations": [ob("probe::probe_p%s" % n, "probe", "") for n in
+    ("8_pre_inv", "9_pre_contents", "10_pre_only")]}
